@@ -463,7 +463,7 @@ class ActiveTagValueProvider(UserDict):
 
     @staticmethod
     def use_value(value):
-        if callable(value):
+        if callable(value) and value is not Unknown:
             # -- RE-EVALUATE VALUE: Each time
             value_func = value
             value = value_func()
